@@ -20,6 +20,7 @@ const (
 	sitePre    = 1<<20 + 3
 	sitePost   = 1<<20 + 4
 	siteFilter = 1<<20 + 5
+	siteGC     = 1<<20 + 9
 	siteChild  = 1<<20 + 6
 )
 
